@@ -786,6 +786,25 @@ func c05CheckDots(r *vkit.Run, n int) {
 		}
 		return dumpExpr(e), nil
 	}
+	// a dot alone, or at the start, is no name under either setting
+	for _, bad := range []string{`{.="x"}`, `{a="b", .=~"x.*"}`, `{.a="x"}`, `{a="b"} | .="x"`} {
+		for _, dots := range []bool{true, false} {
+			var err error
+			func() {
+				defer func() {
+					if p := recover(); p != nil {
+						err = fmt.Errorf("panic: %v", p)
+					}
+				}()
+				_, err = logql.Parse(bad, logql.ParseOptions{AllowDots: dots})
+			}()
+			r.Eval()
+			if err == nil {
+				r.Fail("C05/dots", in, nil, "accepted", "rejected", fmt.Sprintf("%s is accepted (AllowDots=%v): a dot alone or in front is no label name", bad, dots), "")
+				return
+			}
+		}
+	}
 	// with, without, with, without: the second and fourth call follow one that allowed dots
 	for k, dots := range []bool{true, false, true, false, false} {
 		d, err := parse(dots)
